@@ -110,6 +110,29 @@ func copyVal(v Value) Value {
 	return v
 }
 
+// assignInto stores v in the cell p. Struct and array values are copied field by field INTO the aggregate the
+// cell already holds, so that pointers to its fields and elements taken earlier (go/ssa initialises composite
+// literals in place: `t1 = &t0.f; *t0 = T{}; *t1 = x`) keep referring to the live aggregate.
+func assignInto(p *Value, v Value) {
+	switch src := v.(type) {
+	case structV:
+		if dst, ok := (*p).(structV); ok && len(dst) == len(src) {
+			for i := range src {
+				assignInto(&dst[i], src[i])
+			}
+			return
+		}
+	case arrayV:
+		if dst, ok := (*p).(arrayV); ok && len(dst) == len(src) {
+			for i := range src {
+				assignInto(&dst[i], src[i])
+			}
+			return
+		}
+	}
+	*p = copyVal(v)
+}
+
 func valString(v Value) string {
 	return valStringD(v, 0)
 }
